@@ -122,6 +122,12 @@ pub fn gen_cmd(t: &mut Tape, w: &Worker, rdhs: &[Rdh]) -> Cmd {
             _ => {}
         }
     }
+    if !need_filter && filter != Filter::None && t.chance(1, 3) {
+        // an output destination next to a check or view is accepted (and documented as ignored)
+        args.push("-o".into());
+        args.push(w.path("ignored_out.raw").display().to_string());
+        label.push_str(" -o(ignored)");
+    }
     if kind >= 5 && kind <= 7 && t.chance(1, 2) {
         args.push("-d".into());
     }
@@ -475,13 +481,86 @@ fn regress_case(i: u64, w: &Worker) -> CaseResult {
     Ok(out)
 }
 
+/// inputs large enough for the inter-thread queues to fill (more than 100 batches of 100 packets), with errors, an
+/// error cap or a fatal framing error in mid-stream, under a random valid command line
+fn large_case(t0: &mut Tape, w: &Worker) -> CaseResult {
+    let mut ot = t0.fork(120);
+    let mut out = CaseOut::default();
+    let n_hbf = 6_000 + ot.below(w.tier.pick(8_000, 24_000));
+    let n_links = 1 + ot.below(2);
+    let error_every = *ot.pick(&[1usize, 3, 50, 0]);
+    let fatal_at: Option<usize> = if ot.chance(1, 4) { Some(n_hbf + ot.below(n_hbf)) } else { None };
+    let mut packets: Vec<Vec<Packet>> = vec![vec![]; n_links];
+    let mut k = 0usize;
+    for h in 0..n_hbf {
+        let l = h % n_links;
+        for (page, stop) in [(0u16, 0u8), (1, 1)] {
+            let mut r = Rdh { link_id: 2 + l as u8, fee_id: fee_id(1, l as u8, 5), orbit: 1000 + h as u32, pages_counter: page, stop_bit: stop, ..Rdh::default() };
+            if error_every != 0 && k % error_every == 0 && k > 0 {
+                r.bc_word = 0xFFF;
+            }
+            if fatal_at == Some(k) {
+                r.offset_next = *ot.pick(&[0u16, 63, 30_000]);
+            }
+            let mut p = Packet::new(r);
+            if fatal_at != Some(k) {
+                p.fix_sizes();
+            }
+            packets[l].push(p);
+            k += 1;
+        }
+    }
+    let links: Vec<Link> = packets.into_iter().map(|packets| Link { packets, barrel: Barrel::Inner, lane_ids: vec![] }).collect();
+    let lens: Vec<usize> = links.iter().map(|l| l.packets.len()).collect();
+    let stream = Stream { links, order: order_round_robin(&lens) };
+    let (bytes, lay) = stream.encode();
+    let rdhs: Vec<Rdh> = rdhs_of(&stream, &lay).into_iter().take(8).collect();
+    let mut case = CliCase::new(w, bytes);
+    let mut cmd = gen_cmd(&mut ot, w, &rdhs);
+    if !cmd.args.iter().any(|a| a == "-e") && ot.chance(1, 2) {
+        cmd.args.insert(0, (1 + ot.below(3000)).to_string());
+        cmd.args.insert(0, "-e".into());
+        cmd.label.push_str(" -e");
+    }
+    if !cmd.label.starts_with("filter-write") && !cmd.args.iter().any(|a| a == "-o") && ot.chance(1, 2) {
+        if !cmd.args.iter().any(|a| a == "-f" || a == "-F" || a == "-s" || a.starts_with("--filter")) {
+            cmd.args.push("-f".into());
+            cmd.args.push(rdhs[0].link_id.to_string());
+        }
+        // (after the subcommand, next to the filter option: clap checks `-o requires a filter` per level)
+        cmd.args.push("-o".into());
+        cmd.args.push(w.path("ignored_out.raw").display().to_string());
+        cmd.label.push_str(" -o(ignored)");
+    }
+    let (spec, o) = run_cmd(&mut case, &cmd);
+    judge(&mut case, &cmd, &spec, &o)?;
+    out.labels.push(format!("large:cmd:{}", cmd.label.split(" -").next().unwrap_or("")));
+    if cmd.label.contains(" -e") {
+        out.labels.push("large:error_cap".into());
+    }
+    if cmd.label.contains("-o(ignored)") {
+        out.labels.push("large:ignored_output".into());
+    }
+    if fatal_at.is_some() {
+        out.labels.push("large:fatal_midstream".into());
+    }
+    out.labels.push(format!("large:errors_every:{error_every}"));
+    out.nontrivial = true;
+    out.fingerprint = fnv64(&case.data) ^ fnv64(cmd.label.as_bytes());
+    out.execs = case.execs;
+    if w.take_sample() {
+        out.sample = Some(json!({"kind": "large", "cmd": spec.describe(), "exit": o.code, "packets": k, "input_len": case.data.len()}));
+    }
+    Ok(out)
+}
+
 pub fn build() -> Property {
     Property {
         id: "C04",
         rule: "Inputs: structure-aware mutations of G_conf streams (RDH fields to boundary values, word bit flips / insert / delete / swap, padding, packet dup/del, \
                identity splices, truncation, raw bit flips, appended garbage), pure random bytes (0..8, 9..64, 65..4096), random bytes after a valid RDH0, well-framed arbitrary \
                streams, and the repository's test files with random edits; each crossed with a random valid command line (5 check modes, 3 views +-d, filtered writing; \
-               filters, -m, -e, -E, -w, -c, -p, -S/-D, -v; file or pipe). Oracle: process ends by itself (watchdog, hang confirmed 3x60 s), no signal, no panic text, exit in {0,1,n}. \
+               filters, -m, -e, -E, -w, -c, -p, -S/-D, -v, an ignored -o next to a check / view; file or pipe). Phase cli_large_inputs: 12 000 .. 60 000 RDH-only packets on 1..2 links (more than the 100 x 100 packets the reader queue holds) with errors on every 1st / 3rd / 50th packet or none, optionally a fatal framing error in the second half, under the same random command lines with an error cap in half of them. Oracle: process ends by itself (watchdog, hang confirmed 3x60 s), no signal, no panic text, exit in {0,1,n}. \
                Non-trivial = the run got past the first RDH (produced rows or located error messages); distinct by input hash x command label.",
         assumptions: vec![
             "only option combinations accepted by clap and validate_args are generated".into(),
@@ -503,6 +582,7 @@ pub fn build() -> Property {
                 },
                 threads: 16,
             },
+            Phase { name: "cli_large_inputs", kind: PhaseKind::Gen { cases: (96, 1200), tape_len: 200, f: Box::new(large_case) }, threads: 8 },
             Phase {
                 name: "cli_repo_files",
                 kind: PhaseKind::Gen {
